@@ -322,7 +322,8 @@ def run_twin(case, ctx, rng):
                         s.Solver_Set_Parabolic_Algorithm(0.1, 0.7)
             else:
                 E, nu, rho = float(rng.uniform(5, 20)), float(rng.uniform(0.1, 0.4)), float(rng.uniform(0.5, 2))
-                mat = Models.Elastic.Isotropic(dim, E=E, v=nu, planeStress=False)
+                th = float(rng.uniform(0.4, 2.5)) if dim == 2 else 1.0
+                mat = Models.Elastic.Isotropic(dim, E=E, v=nu, planeStress=False, thickness=th)
                 lmbda, mu = mat.get_lambda(), mat.get_mu()
                 ded = Simulations.Elastic(mesh, mat)
                 ded.rho = rho
@@ -330,7 +331,7 @@ def run_twin(case, ctx, rng):
                 I = np.eye(dim)
                 Kf = BiLinearForm(lambda u, v: (2 * mu * Sym_Grad(u) + lmbda * Trace(Sym_Grad(u)) * I).ddot(Sym_Grad(v)))
                 Mf = BiLinearForm(lambda u, v: rho * u.dot(v))
-                wf = Simulations.WeakForms(mesh, Models.WeakForms(field, Kf, computeM=Mf))
+                wf = Simulations.WeakForms(mesh, Models.WeakForms(field, Kf, computeM=Mf, thickness=th))
                 names = ["x", "y", "z"][:dim]
                 for s in (ded, wf):
                     s.add_dirichlet(n0, [0.0] * dim, names)
